@@ -73,6 +73,9 @@ type Result struct {
 	Found    bool      `json:"found,omitempty"`
 	Fired    []string  `json:"fired,omitempty"`
 	Done     bool      `json:"done"`
+	Created  int       `json:"created,omitempty"` // 1 + id of the set this call created (0: none)
+	How      string    `json:"how,omitempty"`     // new | function-form | clone
+	Handle   string    `json:"handle,omitempty"`  // name of the new set's root handle
 	Subs     []*Result `json:"subs,omitempty"`
 }
 
@@ -676,6 +679,7 @@ func (w *World) do(op *Op, res *Result) {
 	if op.Kind == opNew && w.sets[op.Set] == nil {
 		w.sets[op.Set] = template.New(op.Name).Funcs(simFuncs)
 		res.Target = op.Name
+		res.Created, res.How, res.Handle = op.Set+1, "new", op.Name
 		return
 	}
 	// Function forms that create a set.
@@ -712,6 +716,7 @@ func (w *World) do(op *Op, res *Result) {
 			// later Parse calls.
 			w.sets[op.Set] = t.Funcs(simFuncs)
 			res.Target = t.Name()
+			res.Created, res.How, res.Handle = op.Set+1, "function-form", t.Name()
 		}
 		return
 	}
@@ -758,7 +763,17 @@ func (w *World) do(op *Op, res *Result) {
 		classify(err, res)
 		if err == nil && c != nil {
 			if _, exists := w.sets[op.New]; !exists {
-				w.sets[op.New] = c
+				// The clone's root handle is the clone of the parent's root
+				// handle, whatever member Clone was called on, so that "the
+				// set's root" names the same template in parent and clone.
+				h := c
+				if pr := w.sets[op.Set]; pr != nil {
+					if x := c.Lookup(pr.Name()); x != nil {
+						h = x
+					}
+				}
+				w.sets[op.New] = h
+				res.Created, res.How, res.Handle = op.New+1, "clone", h.Name()
 			}
 			res.Target = c.Name()
 		}
